@@ -6,6 +6,7 @@ package gbnh
 import (
 	"bytes"
 	"context"
+	"errors"
 	"fmt"
 	"strings"
 	"sync"
@@ -53,6 +54,7 @@ type Link struct {
 	blackhole                       bool
 	hold                            bool  // deliveries suspended (packets stay in flight)
 	sendErr                         error // when set, send fails (transport broken)
+	failNext                        bool  // the next send call fails once (a transient write error)
 	stall                           bool  // send blocks until its context is done (a transport that accepts nothing)
 	// calls into the transport that are in progress right now (a thread
 	// parked at the entry point counts: it is inside the user's function)
@@ -121,6 +123,10 @@ func (l *Link) send(ctx context.Context, b []byte) error {
 	defer l.mu.Unlock()
 	if l.sendErr != nil {
 		return l.sendErr
+	}
+	if l.failNext {
+		l.failNext = false
+		return errWriteFailed
 	}
 	l.w.pktSeq++
 	p := &Pkt{ID: l.w.pktSeq, Data: append([]byte{}, b...), At: l.w.s.Now()}
@@ -423,6 +429,7 @@ type World struct {
 	closersUsed int
 	injectUsed  int
 	blackholed  bool
+	sendErrUsed bool
 	blackholeAt time.Duration
 	extra       map[string]any
 }
@@ -613,11 +620,34 @@ func (w *World) Actions() []vrt.Action {
 			}
 		}
 	}
+	// a transient write error: the next call of one direction's send
+	// function fails (nothing is transmitted), once per execution
+	if sc.Faults.SendErr && !w.sendErrUsed && !w.goalReached && !(sc.Faults.AfterHandshake && !w.handshakeDone()) {
+		for _, l := range []*Link{w.c2s, w.s2c} {
+			if sc.Faults.Only != "" && sc.Faults.Only != l.name {
+				continue
+			}
+			acts = append(acts, vrt.Action{
+				Label: "senderr:" + l.name, Kind: vrt.KFault, OnlyIdle: true,
+				Do: func() {
+					w.faultsUsed++
+					w.sendErrUsed = true
+					w.lastFaultAt = w.s.Now()
+					l.mu.Lock()
+					l.failNext = true
+					l.mu.Unlock()
+				},
+			})
+		}
+	}
 	if sc.ExtraActions != nil {
 		acts = append(acts, sc.ExtraActions(w)...)
 	}
 	return acts
 }
+
+// errWriteFailed is what a send function returns for a transient write error.
+var errWriteFailed = errors.New("transport: write failed")
 
 func pktName(b []byte) string {
 	m, err := safeDeserialize(b)
